@@ -17,7 +17,10 @@ package main
 // kinds: f fast, g gated, p<v> gated then panics with v, q<v> panics at once.
 
 import (
+	"errors"
 	"fmt"
+	"io"
+	"log"
 	"math/rand"
 	"os"
 	"runtime"
@@ -1040,7 +1043,146 @@ func c09RunTwoPool(line string) string {
 	return fmt.Sprintf("ok gaugeA=%d ranA=%d hanA=%d hanB=%d countC=%d", gauge, atomic.LoadInt32(&fin), atomic.LoadInt32(&hanA), atomic.LoadInt32(&hanB), countC)
 }
 
+// ---- default panic handler, panic values of every kind
+
+type c09DerefErr struct{ msg string }
+
+func (e *c09DerefErr) Error() string { return e.msg } // dereferences the receiver: panics on a typed nil
+
+type c09SafeErr struct{ msg string }
+
+func (e *c09SafeErr) Error() string {
+	if e == nil {
+		return "<nil c09SafeErr>"
+	}
+	return e.msg
+}
+
+type c09Custom struct {
+	A int
+	B []string
+}
+
+// defhandler kinds=<k>: nil settings, no SetPanicHandler.  Job 2i panics with the i-th kind of value, job 2i+1 is an
+// ordinary job scheduled after it.  The process must survive and every job run once.
+func c09RunDefHandler(line string) string {
+	k := c09Cfg(strings.Fields(line), "kinds", 6)
+	old := log.Writer()
+	log.SetOutput(io.Discard)
+	defer log.SetOutput(old)
+	ctl := newC09Ctl()
+	defer func() { ctl.uninstall(); c09MarkZombies() }()
+	q := fpgo.NewBufferedChannelQueue[func()](64, 0, 16)
+	pool := worker.NewDefaultWorkerPool(q, nil)
+	pool.SetWorkerSizeMaximum(2).SetWorkerSizeStandBy(2).SetWorkerBatchSize(0).SetSpawnWorkerDuration(time.Millisecond).
+		SetWorkerJamDuration(time.Hour).SetWorkerExpiryDuration(time.Hour)
+	defer func() {
+		pool.Close()
+		c09Until(time.Second, func() bool { wc, _ := pool.VerifCounts(); return wc == 0 })
+	}()
+	var nilDeref *c09DerefErr
+	var nilSafe *c09SafeErr
+	values := []interface{}{"a string", 42, errors.New("an ordinary error"), error(nilDeref), error(nilSafe),
+		c09Custom{7, []string{"x"}}, &c09Custom{8, nil}, fmt.Errorf("wrapped: %w", errors.New("inner"))}
+	runs := make([]int32, 2*k)
+	for i := 0; i < k; i++ {
+		v, a, b := values[i%len(values)], 2*i, 2*i+1
+		if err := pool.Schedule(func() { atomic.AddInt32(&runs[a], 1); panic(v) }); err != nil {
+			return "viol answer-" + c09Err(err)
+		}
+		if err := pool.Schedule(func() { atomic.AddInt32(&runs[b], 1) }); err != nil {
+			return "viol answer-" + c09Err(err)
+		}
+		c09Until(c09Wait, func() bool { return atomic.LoadInt32(&runs[b]) == 1 })
+	}
+	c09Until(c09Wait, func() bool { wc, wb := pool.VerifCounts(); return wc == 2 && wb == 0 })
+	time.Sleep(5 * time.Millisecond)
+	ran := 0
+	for j, r := range runs {
+		if r > 1 {
+			return fmt.Sprintf("viol job%d-ran-%d-times", j, r)
+		}
+		if r == 0 {
+			return fmt.Sprintf("viol accepted-job%d-not-run", j)
+		}
+		ran++
+	}
+	return fmt.Sprintf("ok ran=%d panics=%d survived", ran, k)
+}
+
+// ---- Invokable: the accepted job is (callee in force at Invoke, value)
+
+// invoke k=<k> max=<m> [timeout=1]: m gated blockers, Invoke 0..k-1 with the old callee, SetCallee, Invoke k..2k-1,
+// release.  Each value must reach, exactly once, the callee that was in force when it was invoked.
+func c09RunInvoke(line string) string {
+	toks := strings.Fields(line)
+	k, mx, timed := c09Cfg(toks, "k", 3), c09Cfg(toks, "max", 2), c09Cfg(toks, "timeout", 0) == 1
+	e := c09NewEnv([]string{fmt.Sprintf("max=%d", mx), fmt.Sprintf("sb=%d", mx), "batch=0", "c=64", "b=0"}, 0)
+	defer e.cleanup()
+	gate := make(chan struct{})
+	var blocked int32
+	for i := 0; i < mx; i++ {
+		e.pool.Schedule(func() { atomic.AddInt32(&blocked, 1); <-gate })
+	}
+	c09Until(c09Wait, func() bool { return int(atomic.LoadInt32(&blocked)) == mx })
+	var mu sync.Mutex
+	oldGot, newGot := map[int]int{}, map[int]int{}
+	inv := worker.NewDefaultInvokable[int](e.pool, func(v int) { mu.Lock(); oldGot[v]++; mu.Unlock() })
+	call := func(v int) string {
+		if timed {
+			if err := inv.InvokeWithTimeout(v, 20*time.Millisecond); err != nil {
+				return "viol answer-" + c09Err(err)
+			}
+			return ""
+		}
+		inv.Invoke(v)
+		return ""
+	}
+	for v := 0; v < k; v++ {
+		if r := call(v); r != "" {
+			return r
+		}
+	}
+	inv.SetCallee(func(v int) { mu.Lock(); newGot[v]++; mu.Unlock() })
+	for v := k; v < 2*k; v++ {
+		if r := call(v); r != "" {
+			return r
+		}
+	}
+	close(gate)
+	c09Until(c09Wait, func() bool { mu.Lock(); defer mu.Unlock(); return len(oldGot)+len(newGot) >= 2*k })
+	time.Sleep(10 * time.Millisecond)
+	mu.Lock()
+	defer mu.Unlock()
+	var viols []string
+	for v := 0; v < 2*k; v++ {
+		want, other, wn, on := oldGot, newGot, "old", "new"
+		if v >= k {
+			want, other, wn, on = newGot, oldGot, "new", "old"
+		}
+		if want[v] != 1 {
+			viols = append(viols, fmt.Sprintf("value%d-reached-%s-callee-%d-times", v, wn, want[v]))
+		}
+		if other[v] != 0 {
+			viols = append(viols, fmt.Sprintf("value%d-reached-%s-callee-%d-times", v, on, other[v]))
+		}
+	}
+	if len(viols) > 0 {
+		if len(viols) > 4 {
+			viols = viols[:4]
+		}
+		return "viol " + strings.Join(viols, " ")
+	}
+	return fmt.Sprintf("ok old=%d new=%d", len(oldGot), len(newGot))
+}
+
 func c09Run(line string) string {
+	if strings.HasPrefix(line, "defhandler ") {
+		return c09RunDefHandler(line[11:])
+	}
+	if strings.HasPrefix(line, "invoke ") {
+		return c09RunInvoke(line[7:])
+	}
 	if strings.HasPrefix(line, "twopool ") {
 		return c09RunTwoPool(line[8:])
 	}
@@ -1233,6 +1375,14 @@ func c09Gen(tier string, rng *rand.Rand, emit func(string)) map[string]interface
 	emit("twopool mode=shared maxA=2 maxB=5 n=5")
 	emit("twopool mode=nil maxA=3 maxB=1 n=7")
 	nd += 3
+	// the default panic handler (nil settings, no SetPanicHandler) and panic values of every kind
+	emit("defhandler kinds=8")
+	emit("defhandler kinds=4")
+	// Invokable: a job accepted by Invoke is (callee at that time, value), also across SetCallee
+	emit("invoke k=3 max=2")
+	emit("invoke k=5 max=1")
+	emit("invoke k=4 max=3 timeout=1")
+	nd += 5
 
 	// (9) stress
 	stress := func(format string, a ...interface{}) { emit("stress " + fmt.Sprintf(format, a...)); ns++ }
